@@ -125,7 +125,7 @@ int find_page_node(struct memory_page_node * array, uint64_t key, int imin, int 
 	while (imin <= imax) {
 		// calculate the midpoint for roughly equal partition
 		int imid = midpoint(imin, imax);
-		if(array[imid].ad <= key && key < array[imid].ad + array[imid].size)
+		if(array[imid].ad <= key && key - array[imid].ad < array[imid].size)
 			// key found at index imid
 			return imid;
 		// determine which subarray to search
@@ -151,7 +151,7 @@ struct memory_page_node * get_memory_page_from_address(vm_mngr_t* vm_mngr, uint6
 			   vm_mngr->memory_pages_number - 1);
 	if (i >= 0) {
 		mpn = &vm_mngr->memory_pages_array[i];
-		if ((mpn->ad <= ad) && (ad < mpn->ad + mpn->size))
+		if ((mpn->ad <= ad) && (ad - mpn->ad < mpn->size))
 			return mpn;
 	}
 	if (raise_exception) {
@@ -838,9 +838,10 @@ int is_mpn_in_tab(vm_mngr_t* vm_mngr, struct memory_page_node* mpn_a)
 
 	for (i=0;i<vm_mngr->memory_pages_number; i++) {
 		mpn = &vm_mngr->memory_pages_array[i];
-		if (mpn->ad >= mpn_a->ad + mpn_a->size)
+		/* written without ad + size, which wraps for a page ending at 2^64 */
+		if (mpn->ad >= mpn_a->ad && mpn->ad - mpn_a->ad >= mpn_a->size)
 			continue;
-		if (mpn->ad + mpn->size  <= mpn_a->ad)
+		if (mpn_a->ad >= mpn->ad && mpn_a->ad - mpn->ad >= mpn->size)
 			continue;
 		fprintf(stderr,
 			"Error: attempt to add page (0x%"PRIX64" 0x%"PRIX64") "
